@@ -272,7 +272,93 @@ func (rn *runner) exec(c tcase, seed int64) {
 		rn.mergeCase(c, env, repo, gitDir, r)
 	case "ext-fault":
 		rn.extFault(c, env, repo, gitDir, path, abs, b, checkCleaned, checkSmudged)
+	case "progress-env":
+		rn.progressEnv(c, env, repo, path, abs, b, checkCleaned, checkSmudged)
 	}
+}
+
+// progressEnv: GIT_LFS_PROGRESS names a file to which the filters append progress lines. Whatever it
+// names (a usable absolute path, a relative path, a path below a missing or unwritable directory, a
+// directory), a filter run that reports success must still satisfy the round-trip oracle.
+func (rn *runner) progressEnv(c tcase, env *sbx.Env, repo, path, abs string, b []byte, checkCleaned func([]byte, string) (ptrspec.Pointer, bool), checkSmudged func([]byte, string)) {
+	run := rn.run
+	val := ""
+	switch c.Chunk {
+	case "abs-ok":
+		val = filepath.Join(env.Root, "progress.log")
+	case "relative":
+		val = "progress.log"
+	case "missing-dir":
+		val = filepath.Join(env.Root, "no", "such", "dir", "progress.log")
+	case "below-a-file":
+		os.WriteFile(filepath.Join(env.Root, "plainfile"), []byte("x"), 0o644)
+		val = filepath.Join(env.Root, "plainfile", "progress.log")
+	case "is-directory":
+		val = env.Dir("progressdir")
+	case "dev-full":
+		val = "/dev/full"
+	}
+	penv := []string{"GIT_LFS_PROGRESS=" + val}
+	var ptr []byte
+	if c.Pk == "/git-add" {
+		os.WriteFile(abs, b, 0o644)
+		a := env.Run(sbx.RunOpt{Dir: repo, Env: penv}, "git", "add", "--", path)
+		run.Count("processes", 1)
+		if a.GoCrash() {
+			rn.viol(c, "go-panic", "git add: "+sbx.Trunc(a.Stderr, 1500), nil)
+			return
+		}
+		if !a.OK() {
+			run.Count("progress_env_clean_refused", 1)
+			return
+		}
+		ptr = env.PlainGit(repo, "cat-file", "blob", ":"+path).Stdout
+		if _, ok := checkCleaned(ptr, "index blob after git add with GIT_LFS_PROGRESS="+c.Chunk); !ok {
+			return
+		}
+		os.Remove(abs)
+		co := env.Run(sbx.RunOpt{Dir: repo, Env: penv}, "git", "checkout", "--", path)
+		if co.GoCrash() {
+			rn.viol(c, "go-panic", "git checkout: "+sbx.Trunc(co.Stderr, 1500), nil)
+			return
+		}
+		if !co.OK() {
+			run.Count("progress_env_smudge_refused", 1)
+			return
+		}
+		got, _ := os.ReadFile(abs)
+		checkSmudged(got, "git checkout (exit 0) with GIT_LFS_PROGRESS="+c.Chunk)
+		return
+	}
+	setWt(abs, c.Wt, b)
+	res := env.Run(sbx.RunOpt{Dir: repo, Stdin: bytes.NewReader(b), Env: penv}, "git-lfs", "clean", "--", path)
+	run.Count("processes", 1)
+	if res.GoCrash() {
+		rn.viol(c, "go-panic", "git lfs clean crashed: "+sbx.Trunc(res.Stderr, 1500), nil)
+		return
+	}
+	if !res.OK() {
+		run.Count("progress_env_clean_refused", 1)
+		// the object may still be needed for the smudge half: clean again without the variable
+		res = env.Run(sbx.RunOpt{Dir: repo, Stdin: bytes.NewReader(b)}, "git-lfs", "clean", "--", path)
+		if !res.OK() {
+			return
+		}
+	} else if _, ok := checkCleaned(res.Stdout, "git lfs clean (exit 0) with GIT_LFS_PROGRESS="+c.Chunk); !ok {
+		return
+	}
+	sm := env.Run(sbx.RunOpt{Dir: repo, Stdin: bytes.NewReader(res.Stdout), Env: penv}, "git-lfs", "smudge", "--", path)
+	run.Count("processes", 1)
+	if sm.GoCrash() {
+		rn.viol(c, "go-panic", "git lfs smudge crashed: "+sbx.Trunc(sm.Stderr, 1500), nil)
+		return
+	}
+	if !sm.OK() {
+		run.Count("progress_env_smudge_refused", 1)
+		return
+	}
+	run.Count("progress_env_smudge_reported_success", 1)
+	checkSmudged(sm.Stdout, "git lfs smudge (exit 0) with GIT_LFS_PROGRESS="+c.Chunk)
 }
 
 // extFault: a configured pointer extension whose clean or smudge program fails (exits non-zero,
@@ -452,7 +538,7 @@ func min(a, b int) int {
 func main() {
 	run := evid.New("C01", "exploration")
 	defer sbx.RemoveBase()
-	run.Rule = "seeded cases over sizes {0,1,2,100,1023,1024,1025,4096,65515,65516,65517,131075,(3MB)} x content {random, text LF/CRLF, zeros, pointer-prefix+payload, pointer look-alike} x mode {one-shot clean/smudge fed through a pipe in write(2) chunk plans whole/1/7/512/1023/1024/1025/4096/random with pauses, filter-process via an independent pkt-line client with packet sizes 1/2/100/8192/65515/65516/random, git add + git checkout (process and one-shot filters), git hash-object --path --stdin (process and one-shot), git merge through git lfs merge-driver with merged pointer shorter/equal/longer than the overwritten one} x working-tree file at the path {absent, same, empty, 10 bytes, 1024 bytes, longer} x {no extension, one reversible extension}; plus a pointer extension whose clean or smudge program fails (partial output + exit 3, no output + exit 1, full output + exit 1, smudge side not inverting the transform) or whose configuration changes between clean and smudge (removed, renamed, other priority) driven one-shot and by git add: the filter may refuse, but a reported success must still satisfy the oracle. Oracle: output parses as canonical pointer (ptrspec), oid/size = SHA-256/length of the stored object, stored object = input (or extension image), smudge output = input; merge result vs git merge-file. Class = all coordinates."
+	run.Rule = "seeded cases over sizes {0,1,2,100,1023,1024,1025,4096,65515,65516,65517,131075,(3MB)} x content {random, text LF/CRLF, zeros, pointer-prefix+payload, pointer look-alike} x mode {one-shot clean/smudge fed through a pipe in write(2) chunk plans whole/1/7/512/1023/1024/1025/4096/random with pauses, filter-process via an independent pkt-line client with packet sizes 1/2/100/8192/65515/65516/random, git add + git checkout (process and one-shot filters), git hash-object --path --stdin (process and one-shot), git merge through git lfs merge-driver with merged pointer shorter/equal/longer than the overwritten one} x working-tree file at the path {absent, same, empty, 10 bytes, 1024 bytes, longer} x {no extension, one reversible extension}; plus a pointer extension whose clean or smudge program fails (partial output + exit 3, no output + exit 1, full output + exit 1, smudge side not inverting the transform) or whose configuration changes between clean and smudge (removed, renamed, other priority) driven one-shot and by git add: the filter may refuse, but a reported success must still satisfy the oracle; the same with GIT_LFS_PROGRESS naming a usable file, a relative path, a path below a missing directory or below a plain file, a directory, /dev/full. Oracle: output parses as canonical pointer (ptrspec), oid/size = SHA-256/length of the stored object, stored object = input (or extension image), smudge output = input; merge result vs git merge-file. Class = all coordinates."
 	run.Assumptions = []string{"inputs are non-pointers by construction (pointer pass-through is C08)", "pipe chunking with pauses is a legal OS schedule; nothing is assumed about timing", "git merge-file is the authority on the expected three-way merge result"}
 	rn := &runner{run: run}
 	r := rand.New(rand.NewSource(run.Seed))
@@ -531,6 +617,13 @@ func main() {
 		for _, via := range []string{"/oneshot", "/git-add"} {
 			for _, sz := range []int{1, 4900, 70000}[:run.N(2, 3)] {
 				add(tcase{Mode: "ext-fault", Size: sz, Content: "random", Wt: "absent", Ext: true, Chunk: kind, Pk: via})
+			}
+		}
+	}
+	for _, kind := range []string{"abs-ok", "relative", "missing-dir", "below-a-file", "is-directory", "dev-full"} {
+		for _, via := range []string{"/oneshot", "/git-add"} {
+			for _, sz := range []int{4900, 200000}[:run.N(1, 2)] {
+				add(tcase{Mode: "progress-env", Size: sz, Content: "random", Wt: "absent", Chunk: kind, Pk: via})
 			}
 		}
 	}
